@@ -581,21 +581,25 @@ class Generator:
         sig = src.text[loc['start']:loc['body_open']]
         body = src.text[loc['body_open'] + 1:loc['body_close']]
         body_off = loc['body_open'] + 1
+        part_lost = None
         if fn.part:
             # rule E8: lift a closure body / the receiver expression in front of it into a function of its own
             bm0 = mask(body)
-            if fn.part[0] == 'closure':
-                cl = [mt for mt in re.finditer(r'\|[^|]*\|\s*\{', bm0)]
-                if fn.part[1] > len(cl):
-                    raise LostAnchor('%s: closure %d not found' % (fn.qual, fn.part[1]))
-                mt = cl[fn.part[1] - 1]
-                o = mt.end() - 1
-                c = match_close(bm0, o)
-                body_off += o + 1
-                body = body[o + 1:c]
-            else:
-                a_, b_, _fz = find_anchor(body, bm0, fn.part[1], 1)
-                body = body[:a_]
+            try:
+                if fn.part[0] == 'closure':
+                    cl = [mt for mt in re.finditer(r'\|[^|]*\|\s*\{', bm0)]
+                    if fn.part[1] > len(cl):
+                        raise LostAnchor('%s: closure %d not found' % (fn.qual, fn.part[1]))
+                    mt = cl[fn.part[1] - 1]
+                    o = mt.end() - 1
+                    c = match_close(bm0, o)
+                    body_off += o + 1
+                    body = body[o + 1:c]
+                else:
+                    a_, b_, _fz = find_anchor(body, bm0, fn.part[1], 1)
+                    body = body[:a_]
+            except LostAnchor as e:
+                part_lost = e      # the part cannot be cut out any more: the lifted function is out of reach, not the whole unit
             sig = fn.sig + ' '
         body_line0 = src.text.count('\n', 0, body_off) + 1
         variants = [(None, fn.opts.get('as', fn.name))]
@@ -604,11 +608,13 @@ class Generator:
         for kid, emit_name in variants:
             mark = (len(self.out.lines), len(self.fns))
             try:
+                if part_lost is not None:
+                    raise part_lost
                 self._emit_fn_variant(fn, src, sig, body, body_line0, kid, emit_name, loc)
             except LostAnchor as e:
                 # the function is there but no longer has the shape the contract is anchored in: keep its contract for the
                 # callers (assumed), and report the properties that depend on this function as undecided
-                if fn.part or fn.mode == 'external_body':
+                if fn.mode == 'external_body':
                     raise
                 del self.out.lines[mark[0]:]
                 del self.out.map[mark[0]:]
